@@ -369,4 +369,32 @@ Section Proofs.
     destruct (desurvey_on_station collar (augment s) 0 0%Q p0 H1 H2 H3 Hp0) as [p [Hp Hv]].
     exists p. split; [exact Hp|]. eapply veq_trans; eassumption.
   Qed.
+
+  (* desurvey is total on every table with at least one row (no sortedness needed) *)
+  Lemma count_lt_le_length ts d : count_lt ts d <= length ts.
+  Proof.
+    unfold count_lt. induction ts as [|x r IH]; simpl; [lia|]. destruct (Qltb x d); simpl; lia.
+  Qed.
+
+  Lemma desurvey_on_total collar (t : list station) d : 2 <= length t -> exists p, desurvey_on dir collar t d = Some p.
+  Proof.
+    intros Hlen. unfold desurvey_on.
+    pose proof (count_lt_le_length (depths_of t) d) as Hc. rewrite depths_length in Hc.
+    set (il := Nat.pred (count_lt (depths_of t) d)).
+    assert (Hil : il < length t) by (unfold il; lia).
+    assert (Hl : length (legs dir t) = length t - 1) by apply legs_length.
+    destruct (nth_error (locations_of collar (legs dir t)) il) as [p|] eqn:E1;
+      [|apply nth_error_None in E1; rewrite locations_of_length in E1; lia].
+    destruct (nth_error (depths_of t) il) as [t0|] eqn:E2; [|apply nth_error_None in E2; rewrite depths_length in E2; lia].
+    destruct (nth_error (legs dir t) (Nat.min il (length (legs dir t) - 1))) as [[l v]|] eqn:E3;
+      [|apply nth_error_None in E3; lia].
+    eexists. reflexivity.
+  Qed.
+
+  Lemma desurvey_total collar (s : list station) d : s <> [] -> exists p, desurvey dir collar s d = Some p.
+  Proof.
+    intros Hne. destruct (augment_shape s Hne) as [a [_ [Hlen _]]].
+    assert (H2 : 2 <= length (augment s)) by (rewrite Hlen; destruct s; [contradiction|simpl; lia]).
+    unfold desurvey. exact (desurvey_on_total collar (augment s) d H2).
+  Qed.
 End Proofs.
